@@ -16,6 +16,13 @@ fill the channel, further ones block inside `Schedule`; `release` opens the gate
 * `gateMb`  – the mailbox whose handler currently blocks the loop goroutine
 * `mq`      – posted, undelivered messages `(mailbox, msg)` in post order
 * `ran`     – messages `(mailbox, msg)` handed to their invoker, in order
+* `stuck`   – the LOOP GOROUTINE ITSELF is blocked inside `Schedule`: the handler it was executing posted
+              to an idle mailbox while all `cap` slots were taken.  The loop goroutine is the only receiver
+              of the channel, so nothing is ever received again (`selfPost`, `release`).
+
+`selfPost`: `PostUserMessage` called by the handler that occupies the loop goroutine (a service sending to a
+sibling on the same dispatcher).  Same wake-up protocol as a foreign post, but the blocking channel send is
+executed by the channel's only receiver.
 -/
 namespace Cell2v.SchedDisp
 
@@ -27,6 +34,7 @@ structure St where
   mq : List (Nat × Nat) := []
   ran : List (Nat × Nat) := []
   posted : List (Nat × Nat) := []
+  stuck : Bool := false
   deriving Repr, Inhabited
 
 def init : St := {}
@@ -51,9 +59,24 @@ def post (s : St) (mb msg : Nat) (gate : Bool) : St :=
       if s.queue.length < s.cap then { s1 with queue := s1.queue ++ [mb] }
       else { s1 with blocked := s1.blocked ++ [mb] }   -- channel full: the poster blocks, nothing runs
 
+/-- `PostUserMessage` called by the handler that currently occupies the loop goroutine.  If the target's run has to be
+handed to the dispatcher and the channel is full, the loop goroutine blocks in `Schedule` on its own channel for ever
+(`stuck`; it counts among the blocked senders: the target's status word says "running"). -/
+def selfPost (s : St) (mb msg : Nat) : St :=
+  match s.gateMb with
+  | none => s                                      -- no handler is executing
+  | some _ =>
+    if s.stuck then s else                         -- the handler sits inside `Schedule`: it posts nothing more
+    let s1 := { s with mq := s.mq ++ [(mb, msg)], posted := s.posted ++ [(mb, msg)] }
+    if scheduled s mb then s1                      -- CAS fails (its own mailbox included): the pending run will take it
+    else if s.queue.length < s.cap then { s1 with queue := s1.queue ++ [mb] }
+    else { s1 with blocked := s1.blocked ++ [mb], stuck := true }
+
 /-- the gate opens: the interrupted run goes on, then the loop drains the channel; every receive
-frees a slot for the oldest blocked sender, so the overall order is `queue ++ blocked` -/
+frees a slot for the oldest blocked sender, so the overall order is `queue ++ blocked`.  A handler that is blocked
+inside `Schedule` never gets to its gate: nothing happens. -/
 def release (s : St) : St :=
+  if s.stuck then s else
   match s.gateMb with
   | none => s
   | some g =>
@@ -62,11 +85,13 @@ def release (s : St) : St :=
 inductive Op where
   | post (mb msg : Nat) (gate : Bool)
   | release
+  | selfPost (mb msg : Nat)
   deriving Repr
 
 def step (s : St) : Op → St
   | .post mb msg g => post s mb msg g
   | .release => release s
+  | .selfPost mb msg => selfPost s mb msg
 
 def runOps (s : St) (ops : List Op) : St := ops.foldl step s
 
